@@ -72,8 +72,8 @@ class ModbusAsciiFramer(ModbusFramer):
         end = self._buffer.find(self._end)
         if end != -1:
             self._header['len'] = end
-            self._header['uid'] = int(self._buffer[1:3], 16)
-            self._header['lrc'] = int(self._buffer[end - 2:end], 16)
+            self._header['uid'] = a2b_hex(self._buffer[1:3])[0]
+            self._header['lrc'] = a2b_hex(self._buffer[end - 2:end])[0]
             data = a2b_hex(self._buffer[start + 1:end - 2])
             return checkLRC(data, self._header['lrc'])
         return False
